@@ -498,8 +498,15 @@ func (a *e4) useInCall(fn *ssa.Function, ci ssa.CallInstruction, v ssa.Value, st
 			if len(com.Args) > 1 {
 				cut, ok = constStr(com.Args[1])
 			}
+			if ok && cut == "'" && st == escQuoted && (name == "TrimPrefix" || name == "TrimSuffix") {
+				a.report(fn, ci.Pos(), what, OK, "strips exactly one enclosing quote")
+				if res != nil {
+					a.follow(fn, res, st, seen)
+				}
+				return
+			}
 			if ok && cut == "'" && st == escQuoted {
-				a.report(fn, ci.Pos(), what, OK, "strips the enclosing quotes (result may end in a dangling backslash: tracked)")
+				a.report(fn, ci.Pos(), what, Violation, "strings."+name+" removes every leading / trailing quote of the escaped literal, including the value's own escaped trailing quote (\\'): the text is left ending in a backslash that escapes whatever is placed behind it, and the literal no longer decodes to the value")
 				if res != nil {
 					a.follow(fn, res, escBody, seen)
 				}
@@ -629,8 +636,8 @@ func verbFollower(format string, n int) (byte, bool) {
 
 var ruleE4 = &Rule{
 	ID:    "E4",
-	Floor: 4,
-	Doc: "escaped text stays escaped: every value that is the output of the literal-escaping routine (sql.StringVal.String, directly or through wrappers whose every return is such an output) is followed through its function (SSA def-use: phis, conversions, variadic packing). It may be concatenated and formatted; the only rewrites accepted are those that cannot unbalance its escape sequences — trimming the enclosing quotes (after which the text may end in a dangling backslash, so what is placed directly behind it must be a constant not starting with a quote), " +
+	Floor: 12,
+	Doc: "escaped text stays escaped: every value that is the output of the literal-escaping routine (sql.StringVal.String, directly or through wrappers whose every return is such an output) is followed through its function (SSA def-use: phis, conversions, variadic packing). It may be concatenated and formatted; the only rewrites accepted are those that cannot unbalance its escape sequences — removing exactly one enclosing quote with TrimPrefix / TrimSuffix (strings.Trim with a cut set also eats the value's own escaped trailing quote and is a violation), " +
 		"strings.Replace(All) with constant arguments whose pattern contains neither backslash nor quote and whose replacement is itself balanced and quote-free, and case / space normalisation. Slicing it, replacing backslashes or quotes in it, regexp rewriting, or any other strings/bytes transformation is a violation",
 	Run: func(c *Ctx) []Obl {
 		g := c.CG()
